@@ -8,7 +8,7 @@ import subprocess
 import sys
 import tempfile
 from concurrent.futures import ThreadPoolExecutor
-from harness.impl import emit
+from harness.impl import emit, protect_stdout
 
 import ruamel.yaml
 
@@ -48,6 +48,7 @@ def run_case(c):
 
 
 def main():
+    protect_stdout()
     cases = [json.loads(l) for l in sys.stdin if l.strip()]
     with ThreadPoolExecutor(max_workers=2) as ex:
         for r in ex.map(run_case, cases):
